@@ -35,7 +35,11 @@ LEVEL_TEXT = (
     "ACKs dropped x2 / x1, TCP connection lost, secure session closed by the server (status close / timeout), user disconnect()} are injected at EVERY loop iteration index of the run and in "
     "the middle of every sleep; plus ordered pairs of failure kinds with the second one at every iteration within a window after the first (quick: "
     "second kind in {server disconnect, user disconnect}, window 2; thorough: all kinds, window 10 and two farther points). "
-    "Bounded exhaustive enumeration of single faults (pairs: windowed)."
+    "Bounded exhaustive enumeration of single faults (pairs: windowed). UDP and TCP sessions are also run with "
+    "ConnectionManager.register_loop() (state changes travel through call_soon_threadsafe, as with the threaded interface). "
+    "ConnectionManager alone: every sequence of 1..6 (thorough 7) connection_state_changed() calls over the three states, with "
+    "0 / 1 / 3 loop turns between the calls (all turn patterns up to length 4 / 5), with and without register_loop(), compared "
+    "with the reference fold (issued sequence without consecutive duplicates)."
 )
 LEVEL_NOTE = (
     "Trusted: virtual loop, scripted gateway, the reference IP Secure crypto of the secure peer (PBKDF2 results memoised, ECDH "
@@ -48,7 +52,9 @@ LEVEL_NOTE = (
     "DisconnectRequest in either direction, no transport loss and no user disconnect happened; Zero-duration windows inside one virtual "
     "instant are not judged. Failures are injected from the iteration at which the user's initial connect() returned, and server-"
     "side disconnects / out-of-order frames only once the ConnectResponse of the current channel has been delivered (the "
-    "statement's failure kinds presuppose a connection; a reconnect handshake overlapping the user's own connect() is recorded). Recorded only: exceptions at the loop handler, "
+    "statement's failure kinds presuppose a connection; a reconnect handshake overlapping the user's own connect() is recorded). ConnectionManager section: both callbacks get exactly the folded sequence, final state = last "
+    "issued, connected event, connection_type and connected_since consistent (no real thread is used: register_loop() mode is "
+    "driven from the loop itself). Recorded only: exceptions at the loop handler, "
     "tasks alive at the end, UDP endpoints opened after disconnect, sends that failed."
 )
 SHARDS = {"quick": 1, "thorough": 16}
